@@ -37,16 +37,33 @@ class Shape(object):
         return len(self.leaves)
 
 
+FIXED_PICKS = [None]  # None: symbolic arrangement; int: arrangement drawn from this seed at generation time
+
+
 def picks(kinds):
-    """symbolic distinct picks from the universe for a member string like 'MRM' -> (stmts, names, idexprs)"""
+    """distinct picks from the universe for a member string like 'MRM' -> (stmts, names).
+    Symbolic by default; with FIXED_PICKS[0] set, one concrete arrangement per member string."""
     st = []
     names = []
     per = {"M": [], "R": []}
+    fixed = None
+    if FIXED_PICKS[0] is not None:
+        import random
+        rng = random.Random("%s/%s" % (FIXED_PICKS[0], kinds))
+        perm = {"M": rng.sample(range(3), 3), "R": rng.sample(range(3), 3)}
+        if FIXED_PICKS[0] == 0:
+            perm = {"M": [2, 0, 1], "R": [1, 0, 2]}
+        fixed = perm
+    cnt = {"M": 0, "R": 0}
     for i, k in enumerate(kinds):
         v = "i%d" % i
-        st.append("let %s = any_below(T_IDX | %d, 3);" % (v, i))
-        for o in per[k]:
-            st.append("eng::assume(%s != %s);" % (v, o))
+        if fixed is not None:
+            st.append("let %s: u8 = %d;" % (v, fixed[k][cnt[k]]))
+            cnt[k] += 1
+        else:
+            st.append("let %s = any_below(T_IDX | %d, 3);" % (v, i))
+            for o in per[k]:
+                st.append("eng::assume(%s != %s);" % (v, o))
         per[k].append(v)
         nm = "l%d" % i
         st.append("let %s = pick_%s(&u, %s);" % (nm, k.lower(), v))
